@@ -89,12 +89,14 @@ func (in *Interp) spawn(fr *Frame, fv FuncV, args []Value, site *ssa.Go) {
 	name := "func"
 	if fv.Fn != nil {
 		name = fv.Fn.String()
+	} else if fv.Name != "" {
+		name = fv.Name // engine-level goroutine (e.g. the model of a time.Ticker)
 	}
 	if in.inInit > 0 {
 		// goroutines started by package init (global actors) are not run
 		return
 	}
-	if in.inlineGo(fr.fn.String()) || in.inlineGo(name) {
+	if fv.Native == nil && (in.inlineGo(fr.fn.String()) || in.inlineGo(name)) {
 		in.callValue(fv, args, nil)
 		return
 	}
